@@ -44,6 +44,13 @@ Theorem C02_open_store_contents : forall c v, reach c -> c_v c = Some v ->
     forall e, In e (all_entries v) <-> In e (concat (c_ack c) ++ concat ch).
 Proof. exact open_store_contents. Qed.
 
+(* ---- 3b. sequence numbers stay fresh through any number of crashes and recoveries: every
+   timestamp the open store holds is smaller than the one the next write will get (state.seq_no +
+   1), so by theorem 5 a later acknowledged write shadows every earlier version of its keys. *)
+Theorem C02_sequence_numbers_fresh : forall c v, reach c -> c_v c = Some v ->
+  forall e, In e (all_entries v) -> ets e < v_seq v + 1.
+Proof. exact sequence_numbers_fresh. Qed.
+
 (* ---- 4. what recovery returns is what the image holds: the entries of the SSTs the manifest
    lists plus the entries of the logs in the root (the executable `disk_entries`, which the
    correspondence check evaluates on every crash image). *)
